@@ -133,6 +133,27 @@ def created_so_far(ids_seen):
 def restore_player(ctx, league, name, path, ids_seen=None, check=False):
     """Rebuild one player from the durable store through `path`. Returns the new object."""
     old = league.players.get(name)
+    if path == "none" and old is not None:
+        # the application caught the exception and simply carries on with the objects as the
+        # interrupted call left them (rate() is not atomic: they hold a torn but well-formed
+        # mixture of old and new values, which is what the next call is given - and what the
+        # store now holds)
+        if all(isinstance(getattr(old, f, None), (int, float)) and math.isfinite(getattr(old, f)) for f in ("mu", "sigma")):
+            league.save(name)
+            ctx.fault("restore:none_torn_values_kept")
+            return old
+        path = "rating"
+    if path == "inplace" and old is not None:
+        # the application caught an exception and puts the stored values back onto the SAME
+        # object (same identity, same id, whatever else the library parked on it)
+        mu, sigma = league.stored(name)
+        try:
+            old.mu = mu
+            old.sigma = sigma
+            ctx.fault("restore:inplace")
+            return old
+        except AttributeError:
+            path = "rating"
     if path == "deepcopy" and old is not None:
         new = copy.deepcopy(old) if len(name) % 2 else copy.deepcopy(old, {})  # with / without an explicit memo
         if check:
@@ -612,7 +633,7 @@ class CallsDriver:
             elif kind == "crash":
                 inner = gen_rate_op(rng, ctx, self.league, names, p["opt_rate"])
                 if inner:
-                    return {"op": "CRASH", "inner": inner, "at": int(1 + 400 * frng.random() ** 2)}
+                    return {"op": "CRASH", "inner": inner, "at": int(1 + 400 * frng.random() ** 2), "repair": frng.choice(["rating", "inplace", "none"])}
             else:
                 scope = frng.sample(names, frng.randint(1, len(names)))
                 return {"op": "RESTART", "scope": scope, "paths": [frng.choice(["rating", "create_rating", "deepcopy"]) for _ in scope]}
@@ -668,6 +689,16 @@ class CallsDriver:
                 mu = abs(mu)  # everybody huge in the same direction: exp() overflows everywhere
             vals.append([enc(float(mu)), enc(float(sg))])
         call = {"op": "RATE", "teams": [["x%d" % i] for i in range(n)]}
+        names = sorted(self.league.players, key=lambda s: int(s[1:]))
+        if names and rng.random() < 0.4:
+            # an established player of the league meets the corrupted records: whatever the call
+            # does (it usually raises from inside the update, after it has started to write),
+            # the application puts his stored values back onto the same object and carries on
+            call["teams"].append([rng.choice(names)])
+            n += 1
+            if rng.random() < 0.6:
+                call["limit_sigma"] = True
+                call["tau"] = enc(rng.choice([0.5, 2.0]) * b)
         if rng.random() < 0.5:
             call.update(encode_outcome(rng, weak_order(rng, n, "tie")))
         return {"op": "EXTREME", "values": vals, "call": call, "predict": rng.choice(["win", "draw", "rank", None])}
@@ -743,6 +774,7 @@ class CallsDriver:
             ti = frng.randrange(k)
             if threads[ti]:
                 op["crash"] = [ti, frng.randrange(len(threads[ti])), int(1 + 300 * frng.random() ** 2)]
+                op["crash_repair"] = frng.choice(["rating", "inplace", "none"])
         if rng.random() < 0.25:
             # one worker serves another tenant: its own model object with other parameters
             from league import gen_config
@@ -810,7 +842,9 @@ class CallsDriver:
         m = self.league.model
         fac = self.league.factory
         objs = {"x%d" % i: fac.rating(mu=dec(mu), sigma=dec(sg), name="x%d" % i) for i, (mu, sg) in enumerate(op["values"])}
-        teams = [[objs[n] for n in t] for t in op["call"]["teams"]]
+        real = [n for t in op["call"]["teams"] for n in t if n not in objs]
+        self.league.ensure(real)
+        teams = [[objs[n] if n in objs else self.league.players[n] for n in t] for t in op["call"]["teams"]]
         kw = rate_kwargs(op["call"])
         pre = model_state(m)
         outs = []
@@ -820,6 +854,10 @@ class CallsDriver:
         st, val = call_outcome(lambda: m.rate(teams, **kw))
         outs.append(st if st == "ok" else type(val).__name__)
         ctx.fault("big_roster_call" if op.get("big_roster") else "extreme_values_call")
+        for n in real:
+            restore_player(ctx, self.league, n, "inplace")
+            ctx.count("league_player_in_extreme_call")
+            self.prev_rebuilt = True
         self.check_model(pre, "EXTREME")
         ctx.log("EXTREME", outs)
         self.prev = "reject"
@@ -982,7 +1020,7 @@ class CallsDriver:
             ctx.fault("crash_line")
             ctx.log("CRASH", list(lc.fired_loc))
             for n in flat(inner["teams"]):
-                restore_player(ctx, self.league, n, "rating")
+                restore_player(ctx, self.league, n, op.get("repair", "rating"))
             self.prev = "crash"
         else:
             ctx.count("crash_missed")
@@ -1031,7 +1069,11 @@ class CallsDriver:
                         rec = exec_call(ctx, league, o, tracer)
                         if rec["out"][0] == "crash":
                             for nm in flat(o["teams"]):
-                                restore_player(ctx, league, nm, "rating")
+                                restore_player(ctx, league, nm, op.get("crash_repair", "rating"))
+                            if op.get("crash_repair") == "none":
+                                # what the killed call left in the objects is what the thread's
+                                # later calls are given (the sequential re-run starts from it too)
+                                rec["torn"] = {nm: [enc(league.players[nm].mu), enc(league.players[nm].sigma)] for nm in flat(o["teams"])}
                     rec["switched"] = sc.switches - sw0
                     records[i].append(rec)
 
@@ -1151,6 +1193,9 @@ class CallsDriver:
                 # store), but what the service did BEFORE calling - re-seeding a player that
                 # had left the domain - did happen and was stored
                 prepare_call(sub, l2s[ti], o)
+                for nm, (mu, sg) in (rec.get("torn") or {}).items():
+                    l2s[ti].players[nm] = mk_rating(l2s[ti].model, dec(mu), dec(sg), nm, ctx.stats)
+                    l2s[ti].save(nm)
                 continue
             r2 = exec_call(sub, l2s[ti], o)
             ctx.evaluations += 1
